@@ -703,6 +703,37 @@ def main(ctx):
                             % (n2, idx.size, len(best)))
         rec.ok(case, outcome="rem_dup:%s" % dt, nontrivial=True, calls=1)
 
+    # ------------------------------------------------------------ densely packed ids of narrow integer types
+    # a first array holding most values of an interval (a lookup table instead of a search suggests itself), in 8- and
+    # 16-bit types whose span exceeds half the type's range (differences wrap in the narrow type), probed with EVERY
+    # value of the type
+    def one_dense(case, rec):
+        dt, lo, hi, holes, ps = case
+        ii = np.iinfo(dt)
+        a1 = np.array([v for v in range(lo, hi + 1) if (v - lo) % holes != holes - 1 or holes == 0], dtype=dt) if holes else np.arange(lo, hi + 1).astype(dt)
+        if not ps:
+            a1 = a1[(np.arange(a1.size) * 7 + 3) % a1.size] if math.gcd(7, a1.size) == 1 else a1[::-1].copy()
+        step = max(1, (ii.max - ii.min + 1) // 4096)
+        a2 = np.arange(ii.min, ii.max + 1, step).astype(dt)
+        a2 = np.concatenate([a2, a2[:5]])
+        try:
+            m1, m2 = nu.match(a1, a2, presorted=ps)
+        except Exception as e:
+            return rec.fail(case, "match raised %s: %s" % (type(e).__name__, e))
+        pos = {int(v): i for i, v in enumerate(a1.tolist())}
+        e2 = [j for j, v in enumerate(a2.tolist()) if v in pos]
+        e1 = [pos[int(a2[j])] for j in e2]
+        if np.asarray(m1).tolist() != e1 or np.asarray(m2).tolist() != e2:
+            bad = [(int(a1[i]), int(a2[j])) for i, j in zip(np.asarray(m1).tolist(), np.asarray(m2).tolist()) if a1[i] != a2[j]][:3]
+            return rec.fail(case, "match of %d dense %s ids %d..%d against every value of the type: %d pairs, %d expected; unequal pairs %r" % (a1.size, dt, lo, hi, np.asarray(m1).size, len(e1), bad))
+        rec.ok(case, outcome="dense:%s" % dt, nontrivial=True, calls=1)
+
+    import math
+    dunits = [(dt, lo, hi, holes, ps) for dt, spans in (("i1", [(-100, 100), (-128, 127), (-50, 90), (0, 127), (-128, 10)]), ("u1", [(0, 255), (10, 200)]),
+                                                         ("i2", [(-20000, 20000), (-32768, 32767), (-100, 32767), (-17000, 16000)]), ("u2", [(0, 65535), (1000, 50000)]))
+              for (lo, hi) in spans for holes in (0, 3) for ps in (False, True)]
+    ctx.lattice("dense-narrow-integer-ids", dunits, one_dense, bounds=dict(types=["i1", "u1", "i2", "u2"], probes="every value of the type (16-bit: every 16th)"))
+
     # ------------------------------------------------------------ arguments that are views of ONE buffer
     # match(a, b) / rem_dup(values, flags) where both arguments are overlapping views of the same memory (the same
     # object twice, a prefix and a strided view that start at the same element, shifted windows, a reversed view):
